@@ -277,6 +277,19 @@ def _run_chunk(exe, cfg, cases, workdir, tag, stall_timeout, on_result):
                 opi = -1
             else:
                 opi = len(cur.events)
+            if pr.hung and not cur.case.get("_hang_retry"):
+                # the wall-clock watchdog is only a backstop (termination is judged by logical budgets): on a loaded machine
+                # it can fire on a healthy process, so the case is run once more, alone, with five times the allowance,
+                # and only a second silence is reported as a hang
+                ENV_STATS["watchdog_firings_retried"] = ENV_STATS.get("watchdog_firings_retried", 0) + 1
+                again = dict(cur.case)
+                again["_hang_retry"] = True
+                done_ids.add(cur.case["id"])
+                idx = order.index(cur.case["id"])
+                pending = [by_id[i] for i in order[idx + 1:]]
+                pr.close()
+                _run_chunk(exe, cfg, [again], workdir, f"{tag}_{attempt}r", stall_timeout * 5, on_result)
+                continue
             ops = cur.case.get("ops", [])
             cur.crash = {"kind": kind, "site": site, "op_index": opi,
                          "op": ops[opi]["op"] if 0 <= opi < len(ops) else None,
